@@ -1149,7 +1149,20 @@ class C13(core.Check):
                     mi >= 1 for mi in ([c["max_iterations"]] if not c.get("calls") else [x[1] for x in c["calls"]]) if mi is not None
                 )
         cases += [self._gen_driver(rng) for _ in range(40 if tier == "quick" else 400)]
+        cases += [self._gen_foreign(rng, tier) for _ in range(4 if tier == "quick" else 40)]  # drawn last (round 6d)
         return cases
+
+    def _gen_foreign(self, rng: random.Random, tier: str) -> dict:
+        """round 6d: the clamp function raises RuntimeError in a chosen evaluation of a chosen optimize_clamp
+        call (pure harness-side wrapper of `clamp.function`, what a user-defined clamp may do).  Nothing catches it: it
+        leaves optimize() before backport.  If the chosen evaluation is never reached the case is an ordinary run."""
+        while True:
+            c = self._gen_valid(rng, tier, "foreign")
+            if c["clamps"] and c["max_iterations"] >= 1:
+                break
+        c["report"] = False
+        c["inject"] = {"solve": rng.choice([0, 0, 1, 1, 2, 3]), "eval": rng.choice([1, 2, 2, 3, 4])}
+        return c
 
     def _gen_defaults(self, rng: random.Random, tier: str) -> dict:
         """optimize() called without arguments: max_iterations, tolerance and method are the source's defaults"""
@@ -1284,6 +1297,28 @@ class C13(core.Check):
                 driver = None
                 out0 = len(buf.getvalue())
                 summary_exc = None
+                aborted = None
+                inj = case.get("inject")
+                if inj:
+                    # round 6d: user-defined clamp functions that raise RuntimeError in evaluation `eval` of the
+                    # `solve`-th optimize_clamp call (whichever clamp that call is for); harness-side only
+                    hit: Dict[str, Any] = {}
+
+                    def make_raising(orig_fn, hit=hit, inj=inj):
+                        def raising(params):
+                            cur = rec.cur
+                            if cur is not None and cur["type"] == "solve" and not hit:
+                                n_solves = sum(1 for e in rec.events if e["type"] == "solve")
+                                if n_solves - 1 == inj["solve"] and len(cur["updates"]) == inj["eval"] - 1:
+                                    hit["prm"] = rec.prmid(params)
+                                    hit["updates"] = len(cur["updates"])
+                                    raise RuntimeError("injected by the harness")
+                            return orig_fn(params)
+
+                        return raising
+
+                    for _, target, _ in sc.clamps:
+                        target.function = make_raising(target.function)
                 try:
                     run = opt.auto_optimize if case.get("auto") else opt.optimize
                     if case.get("use_defaults"):
@@ -1292,12 +1327,17 @@ class C13(core.Check):
                         driver = run(max_iterations=max_iterations, tolerance=case["tolerance"], method=method)
                 except ValueError as e:
                     raised = f"ValueError: {e}"[:200]
+                except RuntimeError as e:
+                    if "injected by the harness" not in str(e):
+                        raise
+                    aborted = dict(hit)
                 except (IndexError, ZeroDivisionError) as e:
                     # the summary block of optimize() (report=True) without iterations / with start quality 0: the
                     # model predicts it (Driver.summary); anything else of this kind is an internal error
                     if not case.get("report"):
                         raise
                     summary_exc = type(e).__name__
+                co["aborted"] = aborted
                 co["summary_exc"] = summary_exc
                 m = re.search(r"Overall improvement: (\S+) > ([^\s(]+)\((\S+), (-?\d+)%\)", buf.getvalue()[out0:])
                 co["summary"] = list(m.groups()) if m else None
@@ -1341,7 +1381,7 @@ class C13(core.Check):
                 co["events"] = rec.events
                 co["J"] = [[k[0], list(k[1]), v] for k, v in rec.J.items()]
                 per_call.append(co)
-                if raised is not None:
+                if raised is not None or aborted is not None:
                     break
         # the last call at top level (what single-call cases always had), earlier ones under "prev"
         obs.update(per_call[-1])
@@ -1403,7 +1443,7 @@ class C13(core.Check):
                 f"c13.driver {case['max_iterations']} {core.rat(case['tolerance'])} {ops} 0",
                 f"c13.reporter {idx} {core.rat(gi)} {core.rat(ji)} {r}",
             ]
-        lines = [self._request_one(case, c) for c in self._per_call(impl)]
+        lines = [self._request_abort(case, c) if c.get("aborted") else self._request_one(case, c) for c in self._per_call(impl)]
         # the driver object of every call, rebuilt from the recorded iteration qualities, with the summary block
         for c in self._per_call(impl):
             if c.get("hist") is not None and c.get("raised") is None:
@@ -1424,7 +1464,15 @@ class C13(core.Check):
             lines.append(f"c13.setup {core.rat(tol2)} " + ";".join(v3(p) for p in su["pts"]) + " " + ";".join(ops))
         return lines
 
-    def _request_one(self, case: dict, impl: Any) -> str:
+    def _request_abort(self, case: dict, impl: Any) -> str:
+        """the call ended in the injected exception: the model is asked for the state it leaves (c13.abort)"""
+        line = self._request_one(case, impl, abort_prm=impl["aborted"]["prm"]).split(" ")
+        its = self._iterations(impl)
+        at = f"{len(its) - 1}:{len(its[-1]['solves']) - 1}:{impl['aborted']['updates']}"
+        # c13.opt: pts clamps links pos lnk G J maxit:tol sched back  ->  c13.abort: … tol sched it:s:m
+        return " ".join(["c13.abort"] + line[1:8] + [core.rat(case["tolerance"]), line[9], at])
+
+    def _request_one(self, case: dict, impl: Any, abort_prm: Optional[int] = None) -> str:
         its = self._iterations(impl)
         sched = []
         for it in its:
@@ -1435,7 +1483,10 @@ class C13(core.Check):
                 ps.append(_dots(evals) + ":" + (_q(ev["grad"]) if ev["grad"] is not None else "0/1"))
             ss = []
             for ev in it["solves"]:
-                ss.append(_dots([u["prm"] for u in ev["updates"]]) + ":" + ("1" if ev["solver_raised"] else "0"))
+                evals = [u["prm"] for u in ev["updates"]]
+                if abort_prm is not None and it is its[-1] and ev is it["solves"][-1]:
+                    evals.append(abort_prm)  # the parameters of the evaluation that raised
+                ss.append(_dots(evals) + ":" + ("1" if ev["solver_raised"] else "0"))
             sched.append(";".join(ps) + "~" + ";".join(ss))
         back = "mesh" if case["kind"] == "mesh" else "sketch:" + ";".join(_dots(q) for q in impl["quads"])
         line = " ".join(
@@ -1595,7 +1646,25 @@ class C13(core.Check):
                 return f"after {what}: grid has links (leader, follower, id) {e['L']}, model {ml}"
         return None
 
+    def _compare_abort(self, case: dict, impl: Any, ans: str) -> Optional[str]:
+        if ans == "bad-op":
+            return "model rejects the c13.abort request (bad-op)"
+        fields = dict(tok.split("=", 1) for tok in ans.split(" "))
+        lst = lambda x: [int(v) for v in x[1:-1].split(",") if v]
+        if fields["reached"] != "1":
+            return "the implementation raised the injected exception, the model does not reach that evaluation: " + ans[:200]
+        if lst(fields["final"]) != impl["final"]:
+            bad = [i for i, (a, b) in enumerate(zip(lst(fields["final"]), impl["final"])) if a != b]
+            return f"grid points after the propagated exception differ at indices {bad}"
+        if lst(fields["prm"]) != impl["final_prm"]:
+            return f"clamp parameters after the propagated exception: model {lst(fields['prm'])}, implementation {impl['final_prm']}"
+        if lst(fields["back"]) != impl["back"]:
+            return f"mesh / sketch after the propagated exception: model {lst(fields['back'])} (untouched), implementation {impl['back']}"
+        return None
+
     def _compare_one(self, case: dict, impl: Any, ans: str) -> Optional[str]:
+        if impl.get("aborted"):
+            return self._compare_abort(case, impl, ans)
         if ans == "bad-op":
             return "model rejects the request (bad-op)"
         fields = dict(tok.split("=", 1) for tok in ans.split(" "))
@@ -1683,6 +1752,19 @@ class C13(core.Check):
         P1 = np.array([pts[i] for i in impl["final"]])
         if impl["q0"] is None:
             return out  # the initial grid is already degenerate: outside the property's quantifier
+        if impl.get("aborted"):
+            # an exception of the user's clamp function propagates; the property's last clause ("not left half-applied"):
+            # the mesh / sketch must be exactly what it was before the call, unclamped grid points untouched
+            if impl["back"] != impl["pts0"]:
+                bad = [i for i, (a, b) in enumerate(zip(impl["back"], impl["pts0"])) if a != b] or ["length"]
+                out.append({"site": f"optimize:exception-left-{case['kind']}-half-applied", "what": f"{case['kind']} points {bad} changed although optimize() ended in an exception of the clamp function", "observed": bad, "expected": "untouched"})
+            clamped = {idx for _, idx in impl["case_clamps"]}
+            followers = {l["follower"] for l in impl["link_data"] if l["leader"] in clamped}
+            for i in range(len(P0)):
+                if i not in clamped and i not in followers and ref[i] != impl["final"][i]:
+                    out.append({"site": "optimize:unclamped-vertex-moved", "what": f"grid point {i} moved (run ended in an exception)", "observed": P1[i].tolist(), "expected": P0[i].tolist()})
+                    break
+            return out
         if impl["raised"] is not None:
             out.append(
                 {
